@@ -189,7 +189,13 @@ async def do_op(rec: Recorder, tr: Any, op: str, tmo: float | None, data: bytes)
         raise
     except BaseException as e:  # noqa: BLE001
         # a closed HSFZ connection reports OSError(EBADFD): an I/O error, counted as connection error
-        res = "ConnErr" if isinstance(e, OSError) and not isinstance(e, TimeoutError) else classify_exc(e)
+        # (kept apart from ConnectionError: the operation that SURFACES a failure must raise a ConnectionError)
+        if isinstance(e, ConnectionError):
+            res = "ConnErr"
+        elif isinstance(e, OSError) and not isinstance(e, TimeoutError):
+            res = "OsErr"
+        else:
+            res = classify_exc(e)
     rec.add("End", op=op, res=res, d=d)
     return res
 
